@@ -35,6 +35,10 @@ def _grid(tier):
             if tier == 'quick' and cplx and i % 2:
                 continue
             out.append({'shape': s, 'cplx': cplx})
+        # mixed dtypes per core (a real train with a complex gate on one site): the core a sweep starts on is real, a later one complex
+        if len(s['rows']) >= 2 and (tier != 'quick' or i % 4 == 0):
+            for mask in ('first', 'last', 'inner'):
+                out.append({'shape': s, 'cplx': mask})
     return out
 
 
